@@ -30,6 +30,10 @@ func (g *Gen) genCodecIR() {
 		{"marshal", "marshalIR"},
 		{"indirect", "indirectIR"},
 		{"isEmpty", "isEmptyIR"},
+		{"Unmarshal", "unmarshalTopIR"},
+		{"unmarshal", "unmarshalIR"},
+		{"newUnmarshalError", "newUnmarshalErrorIR"},
+		{"unmarshalIndirect", "unmarshalIndirectIR"},
 	}
 	x := &tiX{g: g, p: p, known: map[*types.Func]int{}, flat: map[string][]tiFlatField{}, codec: true}
 	var decls []*ast.FuncDecl
@@ -49,12 +53,13 @@ func (g *Gen) genCodecIR() {
 	}
 
 	var sb strings.Builder
-	sb.WriteString(header("Codec IR of hash/marshal.go (see Base/CodecIR.lean): one `Proc` per Go function, variables numbered by\norder of declaration, record fields by position (source names in comments only)."))
+	sb.WriteString(header("Codec IR of hash/marshal.go and hash/unmarshal.go (see Base/CodecIR.lean): one `Proc` per Go function, variables numbered by\norder of declaration, record fields by position (source names in comments only)."))
 	sb.WriteString("import GoCrypt.Base.CodecIR\n\nopen GoCrypt.CIR\n\nnamespace GoCrypt.Gen.codecIR\n\n")
 
 	for _, rec := range []struct{ goName, leanName string }{
 		{"fieldInfo", "fieldInfoFields"}, {"typeInfo", "typeInfoFields"},
 		{"UnsupportedTypeError", "unsupportedTypeErrorFields"}, {"UnsupportedValueError", "unsupportedValueErrorFields"},
+		{"UnmarshalTypeError", "unmarshalTypeErrorFields"}, {"InvalidUnmarshalError", "invalidUnmarshalErrorFields"},
 	} {
 		fl, ok := x.flatten(rec.goName)
 		if !ok {
@@ -124,11 +129,41 @@ func (f *tiFn) codecExpr(e ast.Expr) (string, bool) {
 			return ".invalidValue", true
 		}
 	case *ast.IndexExpr:
-		if codecIsByteSlice(f.typ(v.X)) {
+		if codecIsByteSlice(f.typ(v.X)) || codecIsNodeSlice(f.typ(v.X)) {
 			return fmt.Sprintf("(.index %s %s)", f.expr(v.X), f.expr(v.Index)), true
+		}
+	case *ast.UnaryExpr:
+		if lit, ok := ast.Unparen(v.X).(*ast.CompositeLit); ok && v.Op == token.AND && isNamedType(f.typ(lit), codecParsePkg, "GroupNode") {
+			return f.codecAllocGroup(v, lit), true
 		}
 	}
 	return "", false
+}
+
+// codecAllocGroup: `&parse.GroupNode{Values: []*parse.ValueNode{a, b, …}}` — a fresh group node, hoisted.
+func (f *tiFn) codecAllocGroup(n ast.Node, lit *ast.CompositeLit) string {
+	if f.noHoist || f.closure != nil || len(lit.Elts) != 1 {
+		return f.unknownE(n, "group node literal")
+	}
+	kv, ok := lit.Elts[0].(*ast.KeyValueExpr)
+	if !ok {
+		return f.unknownE(n, "group node literal")
+	}
+	key, ok := kv.Key.(*ast.Ident)
+	inner, ok2 := ast.Unparen(kv.Value).(*ast.CompositeLit)
+	if !ok || !ok2 || key.Name != "Values" || !codecIsNodeSlice(f.typ(inner)) {
+		return f.unknownE(n, "group node literal")
+	}
+	var ms []string
+	for _, el := range inner.Elts {
+		if _, isKV := el.(*ast.KeyValueExpr); isKV {
+			return f.unknownE(n, "group node literal")
+		}
+		ms = append(ms, f.expr(el))
+	}
+	k := f.temp("&parse.GroupNode{…}")
+	f.pre = append(f.pre, fmt.Sprintf("-- %s: &parse.GroupNode{…}\n.allocGroup %d [%s]", f.where(n), k, strings.Join(ms, ", ")))
+	return fmt.Sprintf("(.var %d)", k)
 }
 
 // codecShortCircuit: `X && Y` / `X || Y`. When translating Y hoists statements (a call of a translated
@@ -170,14 +205,60 @@ func (f *tiFn) codecShortCircuit(v *ast.BinaryExpr, and bool) string {
 var codecValueMethods1 = map[string]string{
 	"IsValid": "valIsValid", "Kind": "valKind", "Type": "valType", "IsNil": "valIsNil", "Elem": "valElem", "Len": "valLen",
 	"Bytes": "valBytes", "Int": "valInt", "Uint": "valUint", "String": "valString", "Bool": "valBool", "Float": "valFloat",
-	"CanInterface": "valCanInterface",
+	"CanInterface": "valCanInterface", "Cap": "valCap", "CanAddr": "valCanAddr", "Addr": "valAddr",
 }
 
-var codecTypeMethods1 = map[string]string{"Kind": "typeKind", "Elem": "typeElem", "String": "typeString"}
+var codecTypeMethods1 = map[string]string{"Kind": "typeKind", "Elem": "typeElem", "String": "typeString", "Bits": "typeBits"}
+
+const codecParsePkg = "github.com/sergeymakinen/go-crypt/hash/parse"
+
+var codecNodeMethods = map[string]string{"Type": "nodeType", "String": "nodeString", "End": "nodeEnd"}
+
+// codecIsNodeType: parse.Node, parse.FragmentNode, *parse.PrefixNode, *parse.ValueNode, *parse.GroupNode.
+func codecIsNodeType(t types.Type) bool {
+	if pt, ok := t.(*types.Pointer); ok {
+		return isNamedType(pt.Elem(), codecParsePkg, "PrefixNode") || isNamedType(pt.Elem(), codecParsePkg, "ValueNode") ||
+			isNamedType(pt.Elem(), codecParsePkg, "GroupNode")
+	}
+	return isNamedType(t, codecParsePkg, "Node") || isNamedType(t, codecParsePkg, "FragmentNode")
+}
+
+func codecIsNodeSlice(t types.Type) bool {
+	s, ok := t.Underlying().(*types.Slice)
+	return ok && codecIsNodeType(s.Elem())
+}
+
+// codecSelector: fields of the parse tree.
+func (f *tiFn) codecSelector(v *ast.SelectorExpr) (string, bool) {
+	pt, ok := f.typ(v.X).(*types.Pointer)
+	if !ok {
+		return "", false
+	}
+	switch {
+	case isNamedType(pt.Elem(), codecParsePkg, "Tree"):
+		switch v.Sel.Name {
+		case "Prefix":
+			return fmt.Sprintf("(.fld %s 0)", f.expr(v.X)), true
+		case "Fragments":
+			return fmt.Sprintf("(.fld %s 1)", f.expr(v.X)), true
+		}
+	case isNamedType(pt.Elem(), codecParsePkg, "GroupNode"):
+		if v.Sel.Name == "Values" {
+			return fmt.Sprintf("(.ext1 .nodeValues %s)", f.expr(v.X)), true
+		}
+	case isNamedType(pt.Elem(), codecParsePkg, "ValueNode"):
+		if v.Sel.Name == "Value" {
+			return fmt.Sprintf("(.ext1 .nodeValue %s)", f.expr(v.X)), true
+		}
+	}
+	return "", false
+}
 
 // functions the program calls but does not contain: called by name, behaviour supplied by the context
 var codecExtFuncs = map[string]string{
-	"github.com/sergeymakinen/go-crypt/hash.getTypeInfo": "getTypeInfo",
+	"github.com/sergeymakinen/go-crypt/hash.getTypeInfo":  "getTypeInfo",
+	"github.com/sergeymakinen/go-crypt/hash.indirectType": "indirectType",
+	codecParsePkg + ".Parse":                               "parse.Parse",
 }
 
 // extFunc reports the external name of a called function that is neither translated nor a library
@@ -223,7 +304,7 @@ func (f *tiFn) codecCallExpr(c *ast.CallExpr) string {
 			case "len":
 				if len(c.Args) == 1 {
 					t := f.typ(c.Args[0])
-					if tiIsIntSlice(t) || f.isPtrSlice(t) || isStringType(t) || codecIsByteSlice(t) {
+					if tiIsIntSlice(t) || f.isPtrSlice(t) || isStringType(t) || codecIsByteSlice(t) || codecIsNodeSlice(t) {
 						return fmt.Sprintf("(.len %s)", f.expr(c.Args[0]))
 					}
 				}
@@ -256,6 +337,15 @@ func (f *tiFn) codecCallExpr(c *ast.CallExpr) string {
 					return fmt.Sprintf("(.ext2 .typeImplements %s %s)", f.expr(sel.X), f.expr(c.Args[0]))
 				}
 				return f.unknownE(c, "method of reflect.Type the IR does not model")
+			case codecIsNodeType(rt):
+				if op, ok := codecNodeMethods[sel.Sel.Name]; ok && len(c.Args) == 0 {
+					return fmt.Sprintf("(.ext1 .%s %s)", op, f.expr(sel.X))
+				}
+				return f.unknownE(c, "method of a parse node the IR does not model")
+			case isNamedType(rt, codecParsePkg, "NodeType"):
+				if sel.Sel.Name == "String" && len(c.Args) == 0 {
+					return fmt.Sprintf("(.ext1 .ntypeString %s)", f.expr(sel.X))
+				}
 			case isErrorType(rt):
 				if sel.Sel.Name == "Error" && len(c.Args) == 0 {
 					return fmt.Sprintf("(.ext1 .errorString %s)", f.expr(sel.X))
@@ -266,6 +356,15 @@ func (f *tiFn) codecCallExpr(c *ast.CallExpr) string {
 						return fmt.Sprintf("(.ext1 .bufString %s)", f.expr(sel.X))
 					}
 				}
+			}
+			if pt, ok := rt.(*types.Pointer); ok && isNamedType(pt.Elem(), f.x.p.PkgPath, "fieldInfo") && sel.Sel.Name == "String" && len(c.Args) == 0 {
+				// (fieldInfo).String of typeinfo.go: not part of the program, called by name
+				if f.noHoist || f.closure != nil {
+					return f.unknownE(c, "call inside a loop header or closure")
+				}
+				k := f.temp("result of " + f.srcLine(c))
+				f.pre = append(f.pre, fmt.Sprintf("-- %s: %s\n.callExt [.var %d] \"fieldInfo.String\" [%s]", f.where(c), f.srcLine(c), k, f.expr(sel.X)))
+				return fmt.Sprintf("(.var %d)", k)
 			}
 			if pt, ok := rt.(*types.Pointer); ok && isNamedType(pt.Elem(), "github.com/sergeymakinen/go-crypt/internal/hashutil", "Encoding") {
 				if sel.Sel.Name == "IndexAnyInvalid" && len(c.Args) == 1 {
@@ -291,6 +390,14 @@ func (f *tiFn) codecCallExpr(c *ast.CallExpr) string {
 		if len(c.Args) == 2 {
 			return fmt.Sprintf("(.ext2 .formatUint %s %s)", f.expr(c.Args[0]), f.expr(c.Args[1]))
 		}
+	case "strings.HasPrefix":
+		if len(c.Args) == 2 {
+			return fmt.Sprintf("(.ext2 .hasPrefix %s %s)", f.expr(c.Args[0]), f.expr(c.Args[1]))
+		}
+	case "strings.TrimPrefix":
+		if len(c.Args) == 2 {
+			return fmt.Sprintf("(.ext2 .trimPrefix %s %s)", f.expr(c.Args[0]), f.expr(c.Args[1]))
+		}
 	case "strconv.QuoteRuneToASCII":
 		if len(c.Args) == 1 {
 			return fmt.Sprintf("(.ext1 .quoteRune %s)", f.expr(c.Args[0]))
@@ -311,6 +418,27 @@ func (f *tiFn) codecCallExpr(c *ast.CallExpr) string {
 		return fmt.Sprintf("(.var %d)", k)
 	}
 	return f.unknownE(c, "call")
+}
+
+// unmarshalTextCall recognises `x.Interface().(encoding.TextUnmarshaler).UnmarshalText(arg)` and returns x, arg.
+func (f *tiFn) unmarshalTextCall(c *ast.CallExpr) (ast.Expr, ast.Expr, bool) {
+	sel, ok := c.Fun.(*ast.SelectorExpr)
+	if !ok || sel.Sel.Name != "UnmarshalText" || len(c.Args) != 1 {
+		return nil, nil, false
+	}
+	ta, ok := ast.Unparen(sel.X).(*ast.TypeAssertExpr)
+	if !ok || ta.Type == nil || !isNamedType(f.typ(ta.Type), "encoding", "TextUnmarshaler") {
+		return nil, nil, false
+	}
+	ic, ok := ast.Unparen(ta.X).(*ast.CallExpr)
+	if !ok || len(ic.Args) != 0 {
+		return nil, nil, false
+	}
+	isel, ok := ic.Fun.(*ast.SelectorExpr)
+	if !ok || isel.Sel.Name != "Interface" || !isNamedType(f.typ(isel.X), "reflect", "Value") {
+		return nil, nil, false
+	}
+	return isel.X, c.Args[0], true
 }
 
 // marshalTextCall recognises `v.Interface().(encoding.TextMarshaler).MarshalText()` and returns v.
@@ -345,6 +473,19 @@ func (f *tiFn) codecAssign(v *ast.AssignStmt, ls []string, c string, ind string)
 	}
 	if f.closure != nil {
 		return nil, false
+	}
+	if len(v.Lhs) == 2 && len(call.Args) == 3 {
+		switch f.pkgFunc(call) {
+		case "strconv.ParseInt":
+			return f.flush(ind, fmt.Sprintf("%s%s.extCall [%s] .parseInt [%s]", c, ind, strings.Join(ls, ", "), strings.Join(f.callArgs(call, nil), ", "))), true
+		case "strconv.ParseUint":
+			return f.flush(ind, fmt.Sprintf("%s%s.extCall [%s] .parseUint [%s]", c, ind, strings.Join(ls, ", "), strings.Join(f.callArgs(call, nil), ", "))), true
+		}
+	}
+	if len(v.Lhs) == 1 {
+		if recv, arg, ok := f.unmarshalTextCall(call); ok {
+			return f.flush(ind, fmt.Sprintf("%s%s.unmarshalText (%s) %s %s", c, ind, ls[0], f.expr(recv), f.expr(arg))), true
+		}
 	}
 	if len(v.Lhs) == 2 {
 		if recv, ok := f.marshalTextCall(call); ok {
@@ -382,6 +523,9 @@ func (f *tiFn) codecExprStmt(v *ast.ExprStmt, call *ast.CallExpr, ind string) ([
 			}
 		}
 	}
+	if out, ok := f.codecCellOp(v, call, ind); ok {
+		return out, true
+	}
 	if f.pkgFunc(call) == "reflect.Copy" && len(call.Args) == 2 {
 		if inner, ok := ast.Unparen(call.Args[0]).(*ast.CallExpr); ok && f.pkgFunc(inner) == "reflect.ValueOf" && len(inner.Args) == 1 {
 			if id, ok := ast.Unparen(inner.Args[0]).(*ast.Ident); ok {
@@ -391,6 +535,123 @@ func (f *tiFn) codecExprStmt(v *ast.ExprStmt, call *ast.CallExpr, ind string) ([
 					}
 				}
 			}
+		}
+	}
+	return nil, false
+}
+
+// codecStoreStmt: `x.Value = e` for a *parse.ValueNode x.
+func (f *tiFn) codecStoreStmt(v *ast.AssignStmt, c string, ind string) ([]string, bool) {
+	if len(v.Lhs) != 1 || len(v.Rhs) != 1 || v.Tok != token.ASSIGN {
+		return nil, false
+	}
+	sel, ok := ast.Unparen(v.Lhs[0]).(*ast.SelectorExpr)
+	if !ok || sel.Sel.Name != "Value" {
+		return nil, false
+	}
+	pt, ok := f.typ(sel.X).(*types.Pointer)
+	if !ok || !isNamedType(pt.Elem(), codecParsePkg, "ValueNode") {
+		return nil, false
+	}
+	return f.flush(ind, fmt.Sprintf("%s%s.nodeSetValue %s %s", c, ind, f.expr(sel.X), f.expr(v.Rhs[0]))), true
+}
+
+// ---- defer -----------------------------------------------------------------------------------
+//
+// `defer func() { body }()` (at most one per function, a literal without parameters or results): a flag
+// slot is cleared at the start of the function and set where the defer statement stands; every `return`
+// first evaluates its results into temporaries (as Go does), then runs `body` if the flag is set, then
+// returns the temporaries. The variables the closure mentions keep their slots, so it sees their values
+// at the time of the return, as a Go closure does.
+
+func (f *tiFn) codecDeferSetup() []string {
+	var lits []*ast.FuncLit
+	bad := false
+	ast.Inspect(f.fd.Body, func(n ast.Node) bool {
+		if ds, ok := n.(*ast.DeferStmt); ok {
+			lit, isLit := ds.Call.Fun.(*ast.FuncLit)
+			if !isLit || len(ds.Call.Args) != 0 || lit.Type.Params.NumFields() != 0 || (lit.Type.Results != nil && lit.Type.Results.NumFields() != 0) {
+				bad = true
+			} else {
+				lits = append(lits, lit)
+			}
+		}
+		return true
+	})
+	if bad || len(lits) != 1 {
+		return nil // a defer statement, if any, becomes `unknown`
+	}
+	f.deferLit = lits[0]
+	f.deferFlag = f.temp("a deferred call is pending")
+	for i := 0; i < f.nresults; i++ {
+		f.deferRes = append(f.deferRes, f.temp(fmt.Sprintf("result %d, evaluated before the deferred call runs", i)))
+	}
+	return []string{fmt.Sprintf("    -- no deferred call yet\n    .assign [.var %d] [(.bool false)]", f.deferFlag)}
+}
+
+func (f *tiFn) codecDeferStmt(ds *ast.DeferStmt, ind string) []string {
+	if f.deferFlag < 0 || ds.Call.Fun != ast.Expr(f.deferLit) || f.closure != nil {
+		return []string{ind + f.unknownS(ds, "defer")}
+	}
+	return []string{fmt.Sprintf("%s%s.assign [.var %d] [(.bool true)]", f.comment1(ds, "defer func() { … }()", ind), ind, f.deferFlag)}
+}
+
+func (f *tiFn) codecReturnWithDefer(v *ast.ReturnStmt, rs []string, c string, ind string) []string {
+	var ls, back []string
+	for _, k := range f.deferRes {
+		ls = append(ls, fmt.Sprintf(".var %d", k))
+		back = append(back, fmt.Sprintf("(.var %d)", k))
+	}
+	out := f.flush(ind, fmt.Sprintf("%s%s.assign [%s] [%s]", c, ind, strings.Join(ls, ", "), strings.Join(rs, ", ")))
+	f.inDefer = true
+	savedCtx := f.ctx
+	f.ctx = nil
+	body := f.nested(f.deferLit.Body.List, ind+"  ")
+	f.ctx = savedCtx
+	f.inDefer = false
+	out = append(out, fmt.Sprintf("%s-- the deferred call\n%s.ite (.var %d)\n%s\n%s  .skip", ind, ind, f.deferFlag, body, ind))
+	return append(out, fmt.Sprintf("%s.ret [%s]", ind, strings.Join(back, ", ")))
+}
+
+// codecCellOp: stores through an addressable reflect.Value.
+func (f *tiFn) codecCellOp(v *ast.ExprStmt, call *ast.CallExpr, ind string) ([]string, bool) {
+	sel, ok := call.Fun.(*ast.SelectorExpr)
+	if !ok || !isNamedType(f.typ(sel.X), "reflect", "Value") {
+		return nil, false
+	}
+	emit := func(op string, target ast.Expr, args ...string) ([]string, bool) {
+		return f.flush(ind, fmt.Sprintf("%s%s.cellOp .%s %s [%s]", f.comment(v, ind), ind, op, f.expr(target), strings.Join(args, ", "))), true
+	}
+	switch sel.Sel.Name {
+	case "Set":
+		if len(call.Args) != 1 {
+			return nil, false
+		}
+		inner, ok := ast.Unparen(call.Args[0]).(*ast.CallExpr)
+		if !ok {
+			return nil, false
+		}
+		switch f.pkgFunc(inner) {
+		case "reflect.New":
+			if len(inner.Args) == 1 {
+				return emit("setNew", sel.X, f.expr(inner.Args[0]))
+			}
+		case "reflect.MakeSlice":
+			// the slice type must be the type of the value stored into
+			if len(inner.Args) == 3 && f.x.g.src(inner.Args[0]) == f.x.g.src(sel.X)+".Type()" {
+				return emit("setMakeSlice", sel.X, f.expr(inner.Args[1]), f.expr(inner.Args[2]))
+			}
+		}
+	case "SetInt", "SetUint", "SetString", "SetLen":
+		if len(call.Args) == 1 {
+			op := map[string]string{"SetInt": "setInt", "SetUint": "setUint", "SetString": "setString", "SetLen": "setLen"}[sel.Sel.Name]
+			// v.Index(i).SetUint(x)
+			if ic, ok := ast.Unparen(sel.X).(*ast.CallExpr); ok && sel.Sel.Name == "SetUint" {
+				if isel, ok := ic.Fun.(*ast.SelectorExpr); ok && isel.Sel.Name == "Index" && len(ic.Args) == 1 && isNamedType(f.typ(isel.X), "reflect", "Value") {
+					return emit("setIndexUint", isel.X, f.expr(ic.Args[0]), f.expr(call.Args[0]))
+				}
+			}
+			return emit(op, sel.X, f.expr(call.Args[0]))
 		}
 	}
 	return nil, false
